@@ -77,6 +77,12 @@ class Scenario:
         harness = None
         for u in sim.uncaught:
             if u["kind"] == "actor":
+                if u.get("in_lib") and u["exc"] not in ("AssertionError", "OSError", "FileNotFoundError"):
+                    # a library call made by an application thread failed in a way no scenario expects (the expected ones
+                    # are caught where the call is made): the library's fault, not the harness's
+                    fn = u["where"][-1][2] if u["where"] else "?"
+                    violations = list(violations) + [Violation("api-raised", f"{self.prop}:api-call-raised:{u['exc']}:{fn}", str(u))]
+                    continue
                 harness = f"exception in harness actor {u['task']}: {u['exc']}: {u['msg']} at {u['where']}"
         res = {
             "violations": violations,
